@@ -7,7 +7,7 @@
 From Coq Require Import ZArith List Bool Lia.
 From PCB Require Import lib.Result lib.PyInt model.StrSpace model.UserFn
      proofs.StrSpace_base proofs.StrSpace_gc proofs.StrSpace_inv proofs.StrSpace_ops
-     proofs.UserFn_proofs proofs.UserFn_stmt proofs.UserFn_values proofs.UserFn_inplace.
+     proofs.UserFn_proofs proofs.UserFn_stmt proofs.UserFn_values proofs.UserFn_inplace proofs.UserFn_mid.
 Import ListNotations.
 Open Scope Z_scope.
 
@@ -102,13 +102,16 @@ Print Assumptions C10_reset_preserves.
    Full statement: *)
 Definition C10_inv_preserved_statement : Prop :=
   forall c fuel d s st, SInv c st -> SInv c (fst (exec c fuel d s st)).
-(* proved for LET (all expression forms), SWAP, LSET, RSET, ERASE, DIM, CLEAR [,n], DEF FN, DEFtype; MID$= and
-   console INPUT are covered by the correspondence tests and the oracle only (see design_notes/C10.md) *)
-Definition covered (s : stmt) : Prop := simple s \/ exists l e rj, s = SLset l e rj.
+(* proved for every statement of the language except console INPUT: LET (all expression forms), MID$=, LSET, RSET,
+   SWAP, ERASE, DIM, CLEAR [,n], DEF FN, DEFtype.  Console INPUT is covered by the correspondence tests and the
+   oracle only (see design_notes/C10.md; defect D10e sat in this step) *)
+Definition covered (s : stmt) : Prop := match s with SInput _ _ => False | _ => True end.
 
 Theorem C10_inv_preserved_partial : forall c fuel d s st, covered s -> SInv c st -> SInv c (fst (exec c fuel d s st)).
 Proof.
-  intros c fuel d s st [Hs|(l & e & rj & ->)] HI; [apply exec_simple_inv; assumption|apply exec_lset_inv; assumption].
+  intros c fuel d s st Hs HI.
+  destruct s; try (apply exec_simple_inv; [exact I|exact HI]);
+    [apply exec_mid_inv; exact HI|apply exec_lset_inv; exact HI|contradiction].
 Qed.
 Print Assumptions C10_inv_preserved_partial.
 
